@@ -168,6 +168,25 @@ func (g *Gen) mode() string { return g.Modes[g.R.Intn(len(g.Modes))] }
 
 // Next generates the next step for a sequential run.
 func (g *Gen) Next(m *Model) Step {
+	st := g.next(m)
+	if c := st.Cmd; c != nil && c.Mode != "" && c.Mode != "json" {
+		// text that travels in argv cannot contain NUL (no caller can pass one)
+		strip := func(p *string) {
+			if p != nil {
+				*p = strings.ReplaceAll(*p, "\x00", "")
+			}
+		}
+		strip(c.Title)
+		if c.Mode == "flags" {
+			strip(c.Body)
+		}
+		strip(c.RSum)
+		strip(c.RPath)
+	}
+	return st
+}
+
+func (g *Gen) next(m *Model) Step {
 	fam := g.pick(g.W)
 	human := g.R.Intn(100) < g.Human
 	switch fam {
